@@ -119,9 +119,15 @@ def crash_violations(prop, crashes, cases, what='export driver'):
     return vs
 
 
-def log_exceptions(prop, case, res):
+def log_exceptions(prop, case, res, exp=None):
     vs = []
     for e in res['log']:
+        i = e.get('i')
+        if exp is not None and isinstance(i, int) and 0 <= i < len(exp) and e.get('phase', 'main') == 'main' and exp[i].get('throws') and e.get('op') in ('qr', 'mm', 'dblock'):
+            # a record the library must refuse (timed record at tick rate 0)
+            if e.get('exc') != 'std::runtime_error':
+                vs.append(Violation(prop, '%s:refusal-missing:%s' % (prop, e.get('op')), 'API call %s with a timed record at ticks_per_second = 0 did not throw std::runtime_error (%s)' % (e.get('op'), e.get('exc')), {'case': case, 'op_index': i}))
+            continue
         if e.get('op') == 'rotate_bad':
             if e.get('exc') != 'CborOutputException':
                 vs.append(Violation(prop, '%s:failed-rotation-not-reported' % prop, 'rotate_output to a destination that cannot be opened did not throw CborOutputException (%s)' % e.get('exc'), {'case': case, 'op_index': e.get('i')}))
@@ -203,6 +209,10 @@ def judge_roundtrip(prop, case, outs, exp_outputs, docs, dumps):
                 vs.append(Violation(prop, '%s:library-reader:failed' % prop, 'CdnsReader could not read output %s back: hdr=%s end=%s' % (o.id, d.get('hdr'), d.get('end')), {'case': case, 'output': o.id}))
             else:
                 _cmp_blocks(prop, 'library-reader', case, o.id, eb, d['blocks'], vs)
+                if d.get('reuse_differs'):
+                    vs.append(Violation(prop, '%s:library-reader:reused-block-object' % prop,
+                                        'output %s: a CdnsBlockRead object that block %s was assigned to (after earlier blocks) returns other records than a fresh object: %s'
+                                        % (o.id, d['reuse_differs'].get('block'), d['reuse_differs'].get('what', 'content differs')), {'case': case, 'output': o.id}))
     return vs
 
 
